@@ -105,7 +105,7 @@ def check_squeeze_all(model, R, P, modules=('synapgrad.cpu_ops', 'synapgrad.func
 def check_global_state(model, R, P, modules=NUMERIC_MODULES + ('synapgrad.nn.init', 'synapgrad.nn.utils.data'), floor=100):
     R.rule(P + '.GLOBAL-STATE', 'no function of the numeric modules writes module-level state (stores into / mutates a module-level container, or re-binds a global); the one exception is a memo table whose key '
                                 'determines the stored value (backward slice: every parameter / array attribute the value can depend on is one the key depends on) - a value cached under a key that omits '
-                                'something it depends on (item size, dtype) is returned for other inputs', floor=floor)
+                                'something it depends on (item size, dtype) is returned for other inputs, and a cached array / list is one object shared by all callers', floor=floor)
     n = 0
     for m in modules:
         mod = model.modules.get(m) if hasattr(model, 'modules') and isinstance(model.modules, dict) else None
@@ -131,8 +131,8 @@ def check_global_state(model, R, P, modules=NUMERIC_MODULES + ('synapgrad.nn.ini
                     # a module-level name that is not an imported module alias
                     if base.id in getattr(f.mod, 'aliases', {}):
                         continue
-                    if _complete_memo_store(f, x, base.id):
-                        continue        # a memo table whose key determines the stored value: the table is not observable state
+                    if _complete_memo_store(f, x, base.id) and _memo_value_immutable(model, f, x):
+                        continue        # a memo table whose key determines the stored, immutable value: the table is not observable state
                     bad.append(x)
             R.ob(P + '.GLOBAL-STATE', f.qualname, 'writes to module-level state: %s' % [norm(b)[:60] for b in bad][:3], not bad,
                  'module-level state makes the result depend on earlier calls (and on whatever the cache key leaves out)', _loc(f, bad[0]) if bad else f.loc)
@@ -264,6 +264,18 @@ def _complete_memo_store(f, node, table):
     return all(covered(a) for a in vatoms)
 
 
+def _memo_value_immutable(model, f, node):
+    """the object put into the table cannot be changed by whoever gets it back later (numbers, strings, tuples of such): a cached array / list is one object shared by all callers"""
+    value = None
+    if isinstance(node, ast.Subscript):
+        for n in ast.walk(f.node):
+            if isinstance(n, ast.Assign) and any(t is node for t in n.targets):
+                value = n.value
+    elif isinstance(node, ast.Call) and len(node.args) == 2:
+        value = node.args[1]
+    return value is not None and _immutable_result(model, f, value)
+
+
 IMMUTABLE_CALLS = {'tuple', 'str', 'int', 'float', 'bool', 'frozenset', 'len', 'min', 'max', 'sum', 'abs', 'round', 'repr', 'format', 'math.sqrt', 'sqrt', 'divmod', 'pow', 'hash'}
 
 
@@ -284,6 +296,8 @@ def _immutable_result(model, f, e, depth=0):
             return True
         if t == 'tuple':
             return True
+        if t in ('np.prod', 'np.sum', 'np.max', 'np.min', 'np.size', 'np.ndim', 'numpy.prod', 'numpy.sum') and len(e.args) == 1 and not e.keywords:
+            return True         # a full reduction: a NumPy scalar
         return False
     if isinstance(e, ast.Name):
         # a parameter (hashable, hence immutable by the cache's own contract) or a local bound to immutable expressions only
@@ -292,7 +306,7 @@ def _immutable_result(model, f, e, depth=0):
         binds = [n for n in ast.walk(f.node) if isinstance(n, ast.Assign) and any(isinstance(t, ast.Name) and t.id == e.id for t in n.targets)]
         comp_scope = {id(y) for c in ast.walk(f.node) if isinstance(c, ast.comprehension) for y in ast.walk(c.target)}
         others = [n for n in ast.walk(f.node) if isinstance(n, ast.Name) and n.id == e.id and isinstance(n.ctx, ast.Store) and id(n) not in comp_scope]
-        if binds and len(binds) == len(others) and depth < 4:
+        if binds and len(binds) == len(others) and depth < 12:
             return all(_immutable_result(model, f, b.value, depth + 1) for b in binds)
         return False
     if isinstance(e, ast.Attribute):
